@@ -122,7 +122,7 @@ def gen_order_case(rng):
     rate = rng.choice([0.3, 0.7])
     cfg = {
         "simulation": {"markets": ["S0"], "agents": ["Q", "P", "H"], "sessions": [
-            {"sessionName": 0, "iterationSteps": 260, "withOrderPlacement": True, "withOrderExecution": True,
+            {"sessionName": 0, "iterationSteps": 260 if rate > 0.5 else 560, "withOrderPlacement": True, "withOrderExecution": True,
              "withPrint": False, "maxNormalOrders": 50, "maxHighFrequencyOrders": 50, "highFrequencySubmitRate": rate}]},
         "S0": {"class": "Market", "tickSize": 1.0, "marketPrice": 300.0, "outstandingShares": 1000},
         # quiet agents never produce: all of them are consulted in every step
